@@ -244,6 +244,15 @@ func main() {
 			if math.Abs(m2[0]-m[0]) > 1e-3 || math.Abs(m2[1]-m[1]) > 1e-3 {
 				c.Failf("mercator-roundtrip", "Mercator %v -> WGS84 %v -> Mercator %v", m, b, m2)
 			}
+			// starting on the Mercator side, at and just inside the edge of the mercator square
+			edge := orb.EarthRadius * math.Pi
+			for _, my := range []float64{edge, edge - 1e-3, edge - 1, edge - 30, edge - 1000, -edge, -edge + 1, -edge + 30} {
+				ms := orb.Point{lon * math.Pi / 180 * orb.EarthRadius, my}
+				if back := project.WGS84.ToMercator(project.Mercator.ToWGS84(ms)); math.Abs(back[0]-ms[0]) > 1e-3 || math.Abs(back[1]-ms[1]) > 1e-3 {
+					c.Failf("mercator-roundtrip", "Mercator %v -> WGS84 %v -> Mercator %v (near the edge of the mercator square)", ms, project.Mercator.ToWGS84(ms), back)
+					break
+				}
+			}
 			// closed forms
 			wx := lon * math.Pi / 180 * orb.EarthRadius
 			wy := math.Log(math.Tan(math.Pi/4+lat*math.Pi/360)) * orb.EarthRadius
